@@ -36,6 +36,7 @@ type jcall struct {
 	Past    bool       `json:"last_write_long_ago,omitempty"`         // lastWrite = now-24h (else now+24h)
 	Recent  bool       `json:"filestore_modified_recently,omitempty"` // FileStore.LastModified() in the far future (else far past)
 	Release [][]uint64 `json:"release,omitempty"`
+	Diag    string     `json:"diagnosis,omitempty"` // driver-side explanation only (the verdict is the Coq judge's)
 	Groups  [][]uint64 `json:"impl_groups"`
 	InUse   int        `json:"impl_inuse_count"`
 }
@@ -180,6 +181,49 @@ func (r *runner) fullNonContiguousShape(gens []jgen, k *jcall) bool {
 	return false
 }
 
+// diagnose explains (for replay files only) which part of the property a response breaks.
+func (r *runner) diagnose(snap []jgen, groups [][]uint64) string {
+	var out []string
+	seen := map[uint64]bool{}
+	for gi, g := range groups {
+		in := map[uint64]bool{}
+		for _, id := range g {
+			if r.heldSet[id] {
+				out = append(out, fmt.Sprintf("group %d hands out file %d which is still held by an earlier group", gi, id))
+			}
+			if seen[id] {
+				out = append(out, fmt.Sprintf("file %d occurs twice in this response", id))
+			}
+			seen[id] = true
+			in[id] = true
+		}
+		state := 0
+		for _, gen := range snap {
+			touched, whole := false, true
+			for _, f := range gen.Files {
+				if in[pid(gen.ID, f.Seq)] {
+					touched = true
+				} else {
+					whole = false
+				}
+			}
+			if touched && !whole {
+				out = append(out, fmt.Sprintf("group %d contains only part of generation %d", gi, gen.ID))
+			}
+			switch {
+			case touched && state == 0:
+				state = 1
+			case !touched && state == 1:
+				state = 2
+			case touched && state == 2:
+				out = append(out, fmt.Sprintf("group %d is not contiguous: it skips a generation before generation %d", gi, gen.ID))
+				state = 1
+			}
+		}
+	}
+	return strings.Join(out, "; ")
+}
+
 // do executes one call on the real planner and records the outputs in k.
 func (r *runner) do(k *jcall) {
 	if k.Snap < 0 || k.Snap >= len(r.c.Snaps) {
@@ -252,6 +296,7 @@ func (r *runner) do(k *jcall) {
 	}
 	// driver-side tracking
 	if isPlan {
+		k.Diag = r.diagnose(snap, k.Groups)
 		r.anyPlan = r.anyPlan || len(k.Groups) > 0
 		if len(r.heldSet) > 0 && len(k.Groups) > 0 {
 			r.planWhileHeld = true
